@@ -105,9 +105,16 @@ def seq_position_witness(st, L, esort):
     st.assume(z3.ForAll([x], z3.Implies(z3.Contains(L, z3.Unit(x)), z3.And(0 <= pos(x), pos(x) < z3.Length(L), L[pos(x)] == x))))
 
 
-def dict_wf(st, t, d):
+def dict_wf(st, t, d, ex=None):
     """Well-formedness of a dict value: `keys` enumerates exactly `dom`, without duplicates.
-    (An invariant of every Python dict; the engine's own updates preserve it.)"""
+    (An invariant of every Python dict; the engine's own updates preserve it.)
+    With `dict_key_positions=True` in the contract also: every key sits at some position of `keys`."""
+    if ex is not None and getattr(ex.c, "dict_key_positions", False) and not _once(st, ("dictkeypos", d.get_id()), d):
+        s = t.sort()
+        ks, dom = s.keys(d), s.dom(d)
+        pos = z3.Function(fresh_name("keypos"), t.k.sort(), z3.IntSort())
+        x = fresh(t.k, "wk")
+        st.assume(z3.ForAll([x], z3.Implies(z3.Select(dom, x), z3.And(0 <= pos(x), pos(x) < z3.Length(ks), ks[pos(x)] == x))))
     key = ("dictwf", d.get_id())
     if _once(st, key, d):
         return
@@ -117,10 +124,6 @@ def dict_wf(st, t, d):
     st.assume((z3.Length(ks) == 0) == (dom == z3.K(t.k.sort(), z3.BoolVal(False))))
     st.assume(z3.ForAll([i], z3.Implies(z3.And(0 <= i, i < z3.Length(ks)), z3.Select(dom, ks[i]))))
     st.assume(z3.ForAll([i, j], z3.Implies(z3.And(0 <= i, i < j, j < z3.Length(ks)), ks[i] != ks[j])))
-    # every key of the domain sits at some position of `keys` (position given by a Skolem function)
-    pos = z3.Function(fresh_name("keypos"), t.k.sort(), z3.IntSort())
-    x = fresh(t.k, "wk")
-    st.assume(z3.ForAll([x], z3.Implies(z3.Select(dom, x), z3.And(0 <= pos(x), pos(x) < z3.Length(ks), ks[pos(x)] == x))))
 
 
 def set_iteration_order(st, v: Val) -> Val:
@@ -233,7 +236,7 @@ def _len(ex, st, args, kwargs, node):
     if isinstance(v.ty, T.Set) and not v.is_py:
         raise Unsupported("len() of a symbolic set", node)
     if isinstance(v.ty, T.Dict) and not v.is_py:
-        dict_wf(st, v.ty, lift(v))
+        dict_wf(st, v.ty, lift(v), ex)
     return ops.length(v)
 
 
@@ -1076,7 +1079,7 @@ def value_method(ex, st, recv: Val, name, args, kwargs, node) -> Val:
             return ops.ite(z3.Select(s.dom(d), k), Val(t.v, z3.Select(s.map(d), k)), dflt)
         if name in ("items", "keys", "values"):
             ks = s.keys(d)
-            dict_wf(st, t, d)
+            dict_wf(st, t, d, ex)
 
             def item(i, name=name):
                 kv = Val(t.k, ks[i])
